@@ -64,27 +64,35 @@ theorem stopped_wakes_stopped_and_writable :
 
 /-- the public futures named in the property statement and the table their waker goes to -/
 theorem public_futures_register_where_expected :
-    ("Connection::open_uni_wait", Reg.connectionPollOpenStream) ∈ apiOf ∧
-    ("Connection::open_bi_wait", Reg.connectionPollOpenStream) ∈ apiOf ∧
-    ("Connection::accept_uni", Reg.connectionPollAcceptStream) ∈ apiOf ∧
-    ("Connection::accept_bi", Reg.connectionPollAcceptStream) ∈ apiOf ∧
-    ("Connection::recv_datagram", Reg.connectionPollRecvDatagram) ∈ apiOf ∧
-    ("Connection::send_datagram_wait", Reg.connectionTrySendDatagram) ∈ apiOf ∧
-    ("RecvStream::read", Reg.recvStreamExecutePollRead) ∈ apiOf ∧
-    ("RecvStream::read_chunk", Reg.recvStreamExecutePollRead) ∈ apiOf ∧
-    ("RecvStream::read_to_end", Reg.recvStreamExecutePollRead) ∈ apiOf ∧
-    ("SendStream::write", Reg.sendStreamExecutePollWrite) ∈ apiOf ∧
-    ("SendStream::write_all_chunks", Reg.sendStreamExecutePollWrite) ∈ apiOf ∧
-    ("SendStream::stopped", Reg.sendStreamStopped) ∈ apiOf ∧
-    ("Connecting::poll", Reg.connectingPoll) ∈ apiOf ∧
-    ("Connecting::handshake_data", Reg.connectingHandshakeData) ∈ apiOf ∧
+    [("Connection::open_uni_wait", Reg.connectionPollOpenStream),
+     ("Connection::open_bi_wait", Reg.connectionPollOpenStream),
+     ("Connection::accept_uni", Reg.connectionPollAcceptStream),
+     ("Connection::accept_bi", Reg.connectionPollAcceptStream),
+     ("Connection::recv_datagram", Reg.connectionPollRecvDatagram),
+     ("Connection::send_datagram_wait", Reg.connectionTrySendDatagram),
+     ("Connection::accepted_0rtt", Reg.connectionAccepted0rtt),
+     ("RecvStream::read", Reg.recvStreamExecutePollRead),
+     ("RecvStream::read_chunk", Reg.recvStreamExecutePollRead),
+     ("RecvStream::read_chunks", Reg.recvStreamExecutePollRead),
+     ("RecvStream::read_to_end", Reg.recvStreamExecutePollRead),
+     ("RecvStream::received_reset", Reg.recvStreamReceivedReset),
+     ("SendStream::write", Reg.sendStreamExecutePollWrite),
+     ("SendStream::write_chunks", Reg.sendStreamExecutePollWrite),
+     ("SendStream::write_all_chunks", Reg.sendStreamExecutePollWrite),
+     ("SendStream::stopped", Reg.sendStreamStopped),
+     ("Connecting::poll", Reg.connectingPoll),
+     ("Connecting::handshake_data", Reg.connectingHandshakeData)].all (fun p => apiOf.contains p) = true ∧
     registersIn .connectionPollOpenStream = .streamAvailable ∧
     registersIn .connectionPollAcceptStream = .streamOpened ∧
     registersIn .connectionPollRecvDatagram = .datagramReceived ∧
     registersIn .connectionTrySendDatagram = .datagramsUnblocked ∧
     registersIn .recvStreamExecutePollRead = .readable ∧
+    registersIn .recvStreamReceivedReset = .readable ∧
     registersIn .sendStreamExecutePollWrite = .writable ∧
-    registersIn .sendStreamStopped = .stopped := by decide
+    registersIn .sendStreamStopped = .stopped ∧
+    registersIn .connectingPoll = .onConnected ∧
+    registersIn .connectionAccepted0rtt = .onConnected ∧
+    registersIn .connectingHandshakeData = .onHandshakeData := by decide
 
 /-- the `Drop` implementations only remove the dropped stream's OWN entries -/
 theorem drop_cleans_only_stream_tables : ∀ p ∈ dropCleans, kind p.2 = .map := by decide
@@ -223,6 +231,7 @@ example :
     r.got = [1, 2, 3, 4] ∧ r.eos = 2 ∧ r.pendings = 1 := by decide
 
 example : (writeAllChunks [[1, 2], [], [3, 4, 5]] 0 [.limit 1, .blocked, .limit 3, .limit 9]) =
-    (.ready (), [1, 2, 3, 4, 5], [[], [], []]) := by decide
+    (.ready (), [1, 2, 3, 4, 5], [[], [], []]) := by
+  simp [writeAllChunks, popChunks]
 
 end Compio.Props.C16
